@@ -164,8 +164,18 @@ func init() {
 					fault := i % 8
 					stmts := append([]model.Stmt{}, lc.tree.files[page]...)
 					switch fault {
-					case 0: // one undefined insert
-						stmts = append(stmts, model.Insert{Name: "nowhere", E: model.Lit{V: model.Int(1)}})
+					case 0: // one undefined insert: a name of its own, or a near miss of a reserve name
+						name := "nowhere"
+						if k := r.Intn(8); k > 0 {
+							rn := lc.reserves[0]
+							name = []string{"", rn + " ", " " + rn, rn + "\t", rn + "\n", strings.ToUpper(rn) + "x", rn + rn, rn[:len(rn)-1]}[k]
+							for _, have := range lc.reserves {
+								if have == name {
+									name = "nowhere"
+								}
+							}
+						}
+						stmts = append(stmts, model.Insert{Name: name, E: model.Lit{V: model.Int(1)}})
 					case 1: // several undefined inserts
 						stmts = append(stmts, model.Insert{Name: "nowhere", Block: []model.Stmt{model.Text{S: "x"}}}, model.Insert{Name: "also-nowhere", E: model.Lit{V: model.Str("y")}}, model.Insert{Name: "zz", E: model.Lit{V: model.Int(2)}})
 					case 2: // the same insert twice, after the @use, around it or before it
